@@ -22,6 +22,7 @@ InstN(k, an) == [C0("Instance", TRUE) EXCEPT !.k = k, !.an = an, !.nm = TRUE]
 Uni(ms, fast) == [C0("Union", fast) EXCEPT !.ms = ms]       \* fast: Either(...) (TraitCompound); not fast: Union(...)
 \* legacy Trait(...) forms: Trait(type) / Trait(constant) / Trait(class) / Trait(None, class) / Trait(d, function) /
 \* Trait(d, c1, c2, ...) / Trait(d, {map}) and the compound Trait(d, item, item, ...)
+InstAd(k, an, mode) == [C0("InstAd", TRUE) EXCEPT !.k = k, !.an = an, !.mn = mode]    \* mode 1: adapt="yes", 2: "default"
 TCo(k) == [C0("TCoerce", TRUE) EXCEPT !.k = k]
 TCa(k) == [C0("TCast", TRUE) EXCEPT !.k = k]
 TIn(k, an) == [C0("TInst", TRUE) EXCEPT !.k = k, !.an = an]     \* Trait(None, class) / Trait(TraitInstance(class, allow_none=False))
@@ -74,8 +75,15 @@ Cfgs == SimpleCfgs
         \cup {Uni(<<S("Int"), InstN("A", FALSE)>>, TRUE), Uni(<<InstN("B", FALSE), S("Str")>>, TRUE),
               Uni(<<Mapped("Map", {"s_a", "s_abc"}, TRUE), S("Float")>>, TRUE)}
         \cup LegacyCfgs
+        \cup {InstAd(k, an, mode) : k \in {"A", "B"}, an \in BOOLEAN, mode \in {1, 2}}
+        \cup {Uni(<<InstAd("A", FALSE, 1), S("Int")>>, TRUE), Tup(<<InstAd("B", FALSE, 1), S("Str")>>, TRUE)}
 
-Init == /\ cfg \in Cfgs /\ tok \in Tokens
+\* the value that only SAYS it is a str is tried on the type checks it is about (anything may happen to it elsewhere: its
+\* text, hash and comparisons are those of a plain object)
+LiarCfgs == {S("Str"), B("Str"), TCo("str"), TCo("float"), S("Int"), S("Float"), S("Bool"), S("Any"), S("Bytes"),
+             Inst("A", FALSE), Call(FALSE), Tup(<<S("Int"), S("Str")>>, TRUE), Tup(<<B("Int"), S("Str")>>, FALSE),
+             Uni(<<S("Int"), S("Str")>>, TRUE), Uni(<<S("Int"), S("Str")>>, FALSE), TUn(<<TCo("float"), TCo("str")>>)}
+Init == /\ cfg \in Cfgs /\ tok \in Tokens /\ (Ty(tok) = "liar" => cfg \in LiarCfgs)
         /\ last = [fast |-> Fast(cfg, tok), py |-> Py(cfg, tok), assign |-> Assign(cfg, tok),
                    fm |-> Members(cfg, tok, "fast"), pm |-> Members(cfg, tok, "py"), am |-> Members(cfg, tok, "assign")]
 Next == UNCHANGED vars
@@ -86,6 +94,11 @@ RECURSIVE Dev(_, _)
 Dev(c, t) ==
   (IF "F6" \in KnownFindings /\ c.t = "RangeF" /\ FloatKind(t) = "ok" /\ Tok[t].num = NaN THEN {"F6"} ELSE {})
   \cup (IF "F10" \in KnownFindings /\ c.t = "Callable" /\ ~c.an /\ Ty(t) = "none" THEN {"F10"} ELSE {})
+  \* F28: the compiled type checks (PyObject_TypeCheck) look at the real type, the Python methods use isinstance, which
+  \* honours __class__: a value that only SAYS it is a str is accepted by BaseStr.validate / TraitCoerceType.validate
+  \* and rejected by the fast path
+  \cup (IF "F28" \in KnownFindings /\ Ty(t) = "liar" /\ (c.t = "Str" \/ (c.t = "TCoerce" /\ c.k = "str")) /\ c.fast
+        THEN {"F28"} ELSE {})
   \cup (IF c.t = "Tuple" /\ Len(Items(t)) = Len(c.ms) THEN UNION {Dev(c.ms[k], Items(t)[k]) : k \in 1..Len(c.ms)} ELSE {})
   \cup (IF IsUnion(c) THEN UNION {Dev(c.ms[k], t) : k \in 1..Len(c.ms)} ELSE {})
 
